@@ -69,10 +69,23 @@ func (ms *memstore) GetBucketMeta(baseUrl HttpBaseUrl, bucket string) (*storage.
 	return nil, nil
 }
 
+// copyMeta returns a copy of the stored metadata that shares no mutable state (the user metadata map) with it.
+func copyMeta(stored storage.Object) storage.Object {
+	if stored.Metadata != nil {
+		m := make(map[string]string, len(stored.Metadata))
+		for k, v := range stored.Metadata {
+			m[k] = v
+		}
+		stored.Metadata = m
+	}
+	return stored
+}
+
 func (ms *memstore) Get(baseUrl HttpBaseUrl, bucket string, filename string) (*storage.Object, []byte, error) {
 	f := ms.find(bucket, filename)
 	if f != nil {
-		return &f.meta, f.data, nil
+		meta := copyMeta(f.meta)
+		return &meta, f.data, nil
 	}
 	return nil, nil, nil
 }
@@ -80,7 +93,7 @@ func (ms *memstore) Get(baseUrl HttpBaseUrl, bucket string, filename string) (*s
 func (ms *memstore) GetMeta(baseUrl HttpBaseUrl, bucket string, filename string) (*storage.Object, error) {
 	f := ms.find(bucket, filename)
 	if f != nil {
-		meta := f.meta
+		meta := copyMeta(f.meta)
 		InitMetaWithUrls(baseUrl, &meta, bucket, filename, uint64(len(f.data)))
 		return &meta, nil
 	}
@@ -137,7 +150,7 @@ func (ms *memstore) Copy(srcBucket string, srcFile string, dstBucket string, dst
 	}
 
 	// Copy with metadata
-	meta := src.meta
+	meta := copyMeta(src.meta)
 	meta.TimeCreated = "" // reset creation time on the dest file
 	err := ms.Add(dstBucket, dstFile, src.data, &meta)
 	if err != nil {
